@@ -1511,3 +1511,163 @@ Proof.
            (fun n d H => ratio_wf _ _ _ BAlg_laws n d H) (fle_trans _ _ _ BAlg_laws)
            thr1 thr2 P C l1 l2 W1 W2 (front_counts_ok c g ns P C Hf Hg) Hle E1 E2).
 Qed.
+
+(** ** J. the same with target classes, remove_empty_shapes on: a class kept
+    by the profile-level cleaning has features (hence an instance) unless it is
+    one of the "original labels" -- and a class key is never a label when no
+    class IRI starts with '%' or "@" *)
+
+Lemma kept_class_has_instance c g ins P C ID :
+  r_remove_empty c = true ->
+  track (r_tau c) (tmode_of c) (r_cap c) g = inl ins ->
+  profile (pcfg_of c) ins g = inl (P, C, ID) ->
+  forall cl e, In (cl, e) P -> ~ In cl (orig_labels (pcfg_of c)) -> (0 < class_count ins cl)%N.
+Proof.
+  intros Hre Ht Hp cl e Hce Hlab.
+  destruct (track_insts_ok _ _ _ _ _ Ht) as [ND _].
+  rewrite profile_result in Hp.
+  destruct (annotate_all (p_tau (pcfg_of c)) (p_inverse (pcfg_of c)) g (adapt ins)) as [ID'|err] eqn:HA; [|discriminate].
+  destruct (raw_profile (pcfg_of c) ins ID') as [P1 C0] eqn:HR.
+  cbn [p_remove_empty pcfg_of] in Hp. rewrite Hre in Hp. injection Hp as HP _ _. subst P.
+  apply In_remove_iteration in Hce. destruct Hce as (e1 & He1 & _ & Hnot).
+  destruct (profile_counts_char (pcfg_of c) ins g ID' P1 C0 ND HA HR) as (_ & _ & NDP & _).
+  pose proof (In_dget_NoDup P1 cl e1 NDP He1) as Hget.
+  destruct (profile_entries_char (pcfg_of c) ins g ID' P1 C0 ND HA HR cl e1 Hget) as (_ & _ & Hd & Hi).
+  assert (Hf : has_features (p_inverse (pcfg_of c)) e1 = true).
+  { destruct (has_features (p_inverse (pcfg_of c)) e1) eqn:E; [reflexivity|]. exfalso. apply Hnot.
+    apply In_shapes_to_remove. exists e1. auto. }
+  assert (Hocc : exists dir p k card, (0 < occ dir (r_tau c) ins g cl p k card)%N).
+  { unfold has_features in Hf. destruct (c_direct e1) as [|x l] eqn:Ed.
+    - destruct (p_inverse (pcfg_of c)) eqn:Ei; [|discriminate].
+      destruct (c_inverse e1) as [|y l'] eqn:Ev; [discriminate|].
+      destruct (Hi eq_refl) as [_ Hi2]. destruct (proj1 Hi2) as (p & k & card & H); [discriminate|].
+      exists Inverse, p, k, card. exact H.
+    - destruct (proj1 Hd) as (p & k & card & H); [discriminate|]. exists Direct, p, k, card. exact H. }
+  destruct Hocc as (dir & p & k & card & Hpos).
+  pose proof (occ_le_class_count dir (r_tau c) ins g cl p k card). lia.
+Qed.
+
+Definition class_key_ok (tau : str) (t : triple) : bool :=
+  negb (str_eqb (tp t) tau) ||
+  match to t with ON o => no_at (nid o) && no_sentinel (nid o) | OL _ _ => true end.
+
+(** no class IRI (object of an instantiation triple, requested target class)
+    starts with "@" or '%' *)
+Definition class_iris_ok (c : rcfg) (g : graph) : bool :=
+  forallb (class_key_ok (r_tau c)) g &&
+  forallb (fun t => no_at t && no_sentinel t) (match r_targets c with Some l => l | None => [] end).
+
+Lemma class_key_not_label c g ins P C ID :
+  class_iris_ok c g = true ->
+  track (r_tau c) (tmode_of c) (r_cap c) g = inl ins ->
+  profile (pcfg_of c) ins g = inl (P, C, ID) ->
+  forall ce, In ce P -> ~ In (fst ce) (orig_labels (pcfg_of c)).
+Proof.
+  intros Hok Ht Hp ce Hce Hlab. unfold class_iris_ok in Hok. apply andb_true_iff in Hok. destruct Hok as [Hg Htg].
+  assert (Hcl : no_at (fst ce) && no_sentinel (fst ce) = true).
+  { destruct (profile_class_keys c g ins P C ID Ht Hp ce Hce) as [Hin|(t & o & Hin & Htp & Hto & Hid)].
+    - rewrite forallb_forall in Htg. exact (Htg _ Hin).
+    - rewrite forallb_forall in Hg. specialize (Hg t Hin). unfold class_key_ok in Hg.
+      rewrite Htp, str_eqb_refl, Hto, Hid in Hg. exact Hg. }
+  apply andb_true_iff in Hcl. destruct Hcl as [Hat Hse].
+  unfold orig_labels in Hlab. cbn [p_targets p_map_labels pcfg_of] in Hlab. rewrite app_nil_r in Hlab.
+  destruct (r_targets c) as [l|]; [|destruct Hlab].
+  apply in_map_iff in Hlab. destruct Hlab as [t [Et _]].
+  destruct (shape_name_form c_SHAPES_DEFAULT_NAMESPACE t) as [[Ha Hs]|[[Hb Hs]|[body Hs]]]; rewrite Hs in Et.
+  - subst t. unfold no_at in Hat. rewrite Ha in Hat. discriminate.
+  - rewrite <- Et in Hse. unfold no_sentinel in Hse. rewrite sentinel_cons in Hse. cbn in Hse. discriminate.
+  - rewrite <- Et in Hse. unfold no_sentinel in Hse. rewrite sentinel_cons in Hse. cbn in Hse. discriminate.
+Qed.
+
+Section NoEmptyShapeTargets.
+  Variable fa : FreqAlg.
+  Variables (okN : N -> Prop) (okF : F fa -> Prop).
+  Hypothesis L : FreqLaws fa okN okF.
+
+  Theorem run_raw_nonempty_remove c thr g ns l :
+    r_remove_empty c = true -> class_iris_ok c g = true ->
+    okF thr -> fle fa thr (fone fa) = true ->
+    (forall n, (0 < n <= N.of_nat (List.length g))%N -> okN n) ->
+    run_raw fa c thr g = inl (ns, l) -> Forall (fun sh => sh_stmts sh <> []) l.
+  Proof.
+    intros Hre Hcls HokF Hle HokN H. unfold run_raw in H.
+    destruct (full_ns c) as [ns0|]; [|discriminate].
+    destruct (front c g) as [[P C]|e] eqn:Hf; [|discriminate].
+    destruct (map_err (shex_class fa (scfg_of c ns0) thr C) P) as [l0|e] eqn:Em; [|discriminate].
+    injection H as <- <-. apply map_err_Forall2 in Em.
+    destruct (front_inl c g P C Hf) as (ins & ID & Ht & Hp).
+    apply Forall_forall. intros sh Hsh.
+    destruct (ShexBasics.Forall2_In_r _ _ _ _ Em Hsh) as [[cl e] [Hce Hs]].
+    pose proof (kept_class_has_instance c g ins P C ID Hre Ht Hp cl e Hce
+                  (class_key_not_label c g ins P C ID Hcls Ht Hp (cl, e) Hce)) as Hpos.
+    apply (shex_class_nonempty fa okN okF L c g ns0 ins P C ID thr cl e sh Ht Hp Hce Hpos); try assumption.
+    apply HokN. split; [exact Hpos|]. exact (class_count_le_graph _ _ _ _ _ cl Ht).
+  Qed.
+End NoEmptyShapeTargets.
+
+(** C14, final form for binary64: any mode, any setting of remove_empty_shapes *)
+Theorem run_direct_unchanged_valid c thr g ns st :
+  class_iris_ok c g = true -> wf_frac thr -> fle BAlg thr (fone BAlg) = true ->
+  (N.of_nat (List.length g) < 2 ^ 53)%N ->
+  run_shapes BAlg (rwith_inverse true c) thr g = inl (ns, st) ->
+  exists sf, run_shapes BAlg (rwith_inverse false c) thr g = inl (ns, sf) /\ Forall2 direct_part st sf.
+Proof.
+  intros Hcls Hw Hle Hg. destruct (r_remove_empty c) eqn:Hre.
+  - apply (run_direct_unchanged_nonempty BAlg c thr g ns st order_at_BAlg). intros ns' l Hr.
+    exact (run_raw_nonempty_remove BAlg okN53 wf_frac BAlg_laws (rwith_inverse false c) thr g ns' l Hre Hcls Hw Hle
+                                   (okN53_of_graph g Hg) Hr).
+  - exact (run_direct_unchanged_keep BAlg c thr g ns st order_at_BAlg Hre).
+Qed.
+
+(** C04 without (iii): thresholds <= 1, class IRIs not starting with '%'/"@" *)
+Theorem run_total_valid c thr g :
+  wf_frac thr -> fle BAlg thr (fone BAlg) = true -> (N.of_nat (List.length g) < 2 ^ 53)%N ->
+  typing_okb (r_tau c) g && forallb (sentinel_free (r_tau c)) g && prefix_free c && class_iris_ok c g = true ->
+  exists ns shapes, run_shapes BAlg c thr g = inl (ns, shapes).
+Proof.
+  intros Hw Hle Hg H. apply andb_true_iff in H. destruct H as [H Hcls].
+  destruct (r_remove_empty c) eqn:Hre.
+  - apply andb_true_iff in H. destruct H as [H H4]. apply andb_true_iff in H. destruct H as [H1 H2].
+    apply typing_okb_ok in H1. destruct (prefix_free_spec c H4) as [ns Hns].
+    destruct (front_total c g H1) as (ins & P & C & ID & Ht & Hp).
+    assert (Hf : front c g = inl (P, C)) by (unfold front; rewrite Ht, Hp; reflexivity).
+    destruct (ShexKeys.map_err_total (shex_class BAlg (scfg_of c ns) thr C) P) as [l Hl].
+    { intros ce Hce. apply shex_class_total. apply entries_ok_tokens_ok.
+      exact (profile_entries_renderable c g ns ins P C ID H2 Ht Hp ce Hce). }
+    assert (Hraw : run_raw BAlg c thr g = inl (ns, l)) by (unfold run_raw; rewrite Hns, Hf, Hl; reflexivity).
+    pose proof (run_raw_nonempty_remove BAlg okN53 wf_frac BAlg_laws c thr g ns l Hre Hcls Hw Hle
+                                        (okN53_of_graph g Hg) Hraw) as Hne.
+    exists ns, l. rewrite run_shapes_front, Hns, Hf. unfold shex. rewrite Hl.
+    destruct (x_remove_empty (scfg_of c ns)); [|reflexivity].
+    rewrite clean_shapes_id by exact Hne. reflexivity.
+  - apply run_total. unfold valid_input, options_ok. rewrite Hre.
+    apply andb_true_iff in H. destruct H as [H H4]. rewrite H, H4. rewrite orb_true_r. reflexivity.
+Qed.
+
+(** C12 with remove_empty_shapes on or off, any mode *)
+Theorem run_keys_monotone_valid c thr1 thr2 g ns1 s1 ns2 s2 :
+  class_iris_ok c g = true -> wf_frac thr1 -> wf_frac thr2 ->
+  fle BAlg thr1 thr2 = true -> fle BAlg thr2 (fone BAlg) = true ->
+  (N.of_nat (List.length g) < 2 ^ 53)%N ->
+  run_shapes BAlg c thr1 g = inl (ns1, s1) -> run_shapes BAlg c thr2 g = inl (ns2, s2) ->
+  ns1 = ns2 /\ Forall2 (keys_shrink (scfg_of c ns1)) s1 s2.
+Proof.
+  intros Hcls W1 W2 Hle Hle2 Hg R1 R2. destruct (r_remove_empty c) eqn:Hre;
+    [|exact (run_keys_monotone c thr1 thr2 g ns1 s1 ns2 s2 Hre W1 W2 Hle Hg R1 R2)].
+  assert (Hle1 : fle BAlg thr1 (fone BAlg) = true).
+  { apply (fle_trans _ _ _ BAlg_laws thr1 thr2 (fone BAlg)); auto. apply (fone_ok _ _ _ BAlg_laws). }
+  apply run_shapes_raw_nonempty in R1;
+    [|intros ns' l; apply (run_raw_nonempty_remove BAlg okN53 wf_frac BAlg_laws c thr1 g ns' l Hre Hcls W1 Hle1 (okN53_of_graph g Hg))].
+  apply run_shapes_raw_nonempty in R2;
+    [|intros ns' l; apply (run_raw_nonempty_remove BAlg okN53 wf_frac BAlg_laws c thr2 g ns' l Hre Hcls W2 Hle2 (okN53_of_graph g Hg))].
+  unfold run_raw in R1, R2.
+  destruct (full_ns c) as [ns|]; [|discriminate].
+  destruct (front c g) as [[P C]|e] eqn:Hf; [|discriminate].
+  destruct (map_err (shex_class BAlg (scfg_of c ns) thr1 C) P) as [l1|e1] eqn:E1; [|discriminate].
+  destruct (map_err (shex_class BAlg (scfg_of c ns) thr2 C) P) as [l2|e2] eqn:E2; [|discriminate].
+  injection R1 as <- <-. injection R2 as <- <-. split; [reflexivity|].
+  apply map_err_Forall2 in E1. apply map_err_Forall2 in E2.
+  exact (pre_mono BAlg (scfg_of c ns) wf_frac okN53
+           (fun n d H => ratio_wf _ _ _ BAlg_laws n d H) (fle_trans _ _ _ BAlg_laws)
+           thr1 thr2 P C l1 l2 W1 W2 (front_counts_ok c g ns P C Hf Hg) Hle E1 E2).
+Qed.
